@@ -6,7 +6,7 @@ from .c07 import NOT_COMPILE
 
 PROF = projgen.profile(n_mods=(3, 8), p_dep=0.7, p_provides=0.35, p_env=0.5, p_custom_build=0.06, p_build_dep=0.1, p_download=0.03,
                        p_tasks=0.03, p_cli_define=0.2, p_defaults=0.2, p_ctxlist=0.0, p_shadow=0.15, p_varopts=0.1, p_cycle=0.0)
-OBS = ("status", "decision", "modules", "module_env", "ninja")
+OBS = ("status", "decision", "modules", "loaded", "module_env", "ninja")
 
 
 def compile_by_source(pn):
